@@ -114,7 +114,7 @@ func c20Requests(rng *rand.Rand, n int) []rawReq {
 	base := "http://emu"
 	paths := []string{"/storage/v1/b/bkt/o/victim", "/storage/v1/b/bkt/o", "/storage/v1/b/bkt", "/storage/v1/b", "/upload/storage/v1/b/bkt/o",
 		"/b/bkt/o/victim", "/bkt/victim", "/", "/storage/v1/b//o/x", "/storage/v1/b/bkt/o/victim/compose", "/storage/v1/b/bkt/o/victim/rewriteTo/b/bkt/o/victim2",
-		"/storage/v1/b/bkt/o/victim/rewriteTo/b/bkt", "/storage/v1/b/bkt/o/victim/rewriteTo/", "/storage/v1/b/bkt/o/a/compose/b/compose", "/download/storage/v1/b/bkt/o/victim",
+		"/storage/v1/b/bkt/o/victim/rewriteTo/b/bkt", "/storage/v1/b/bkt/o/victim/rewriteTo/b/bkt/o/victim", "/storage/v1/b/bkt/o/keep%2Fa.txt/rewriteTo/b/bkt/o/victim", "/storage/v1/b/bkt/o/victim/rewriteTo/", "/storage/v1/b/bkt/o/a/compose/b/compose", "/download/storage/v1/b/bkt/o/victim",
 		"/storage/v1/b/no-such/o/x", "/storage/v1/b/bkt/o/%00", "/storage/v1/b/bkt/o/..%2F..%2Fetc", "/storage/v1/b/bkt/o/" + strings.Repeat("n", 300), "/storage/v1/x", "/batch/storage/v1"}
 	methods := []string{"GET", "POST", "PUT", "PATCH", "DELETE", "HEAD", "OPTIONS", "TRACE"}
 	qkeys := []string{"uploadType", "name", "upload_id", "alt", "prefix", "delimiter", "pageToken", "maxResults", "ifGenerationMatch", "ifGenerationNotMatch", "ifMetagenerationMatch", "ifMetagenerationNotMatch"}
